@@ -279,9 +279,25 @@ func genRename(prop string, seed uint64, run int, tier string) *Scenario {
 		scripts = append(scripts, ops)
 	}
 	setup = append(setup, Op{K: OpNewWatcher, N: bufSizes[g.r.Intn(len(bufSizes))]}, Op{K: OpAdd, P: "a"}, Op{K: OpAdd, P: "b"})
+	// sometimes the moved entries have watches of their own, which an API caller
+	// removes while the moves are in flight
+	var cl []Op
+	if g.chance(0.35) {
+		for t := 0; t < nt; t++ {
+			f := fmt.Sprintf("a/t%d_0", t)
+			setup = append(setup, Op{K: OpAdd, P: f})
+			cl = append(cl, Op{K: OpYield}, Op{K: OpRemove, P: f})
+			if g.chance(0.5) {
+				cl = append(cl, Op{K: OpWatchList})
+			}
+		}
+	}
 	sc.Setup = setup
 	for t, ops := range scripts {
 		sc.Tasks = append(sc.Tasks, TaskScript{Name: fmt.Sprintf("world%d", t), Role: "world", Ops: ops})
+	}
+	if len(cl) > 0 && !sc.Cfg.Lagfree {
+		sc.Tasks = append(sc.Tasks, TaskScript{Name: "client0", Role: "client", Ops: cl})
 	}
 	return sc
 }
